@@ -1,3 +1,4 @@
 From Coq Require Import ExtrOcamlBasic.
 From ChibiV Require Import Common.ExtractBase C02.Model.
-Extraction "model.ml" ext_base mark gc sweep marked_addrs heap_of_list heap_ok ptr_ok layout_of slots_of hfind mkspec mklayout mkobj.
+From ChibiV Require C02.GcMacros Gen.C02_GcMacros C02.Preserve.
+Extraction "model.ml" ext_base mark gc sweep marked_addrs heap_of_list heap_ok ptr_ok layout_of slots_of hfind mkspec mklayout mkobj Gen.C02_GcMacros.gc_macro_report C02.Preserve.run_ops.
